@@ -68,7 +68,7 @@ def C17(s, known):
 
 def C08(s, known):
     s.build(need_inproc=True)
-    writer_sat(s, known)      # "valid variable-length deltas": the writer refuses what the format cannot hold
+    writer_sat(s, known, verdict=False)      # "valid variable-length deltas": the writer refuses what the format cannot hold
     sm = s.drive("smfsanity")
     s.model("SMFSanity", workers=2, files=[(sm["dir"] + "/records.ndjson", "records.ndjson")])
     m = s.drive("c08")
@@ -112,7 +112,7 @@ def writer_mechanism(s, known):
             s.binding_selftest(m, "WriterTrace", corrupt, constants={"N": n}, expect="Conforms")
 
 
-def writer_sat(s, known):
+def writer_sat(s, known, verdict=True):
     """The writer's bookkeeping in machine arithmetic (WriterSat.tla): saturating sums and the refusal of deltas the
     format cannot hold, model-checked on small words; the deviation (wrapping sums) must be caught; traces of the real
     writer at the scale of the real words (2^26-tick units) are validated against the same actions."""
@@ -126,7 +126,8 @@ def writer_sat(s, known):
     for n in (1, 3) if quick else (1, 2, 3, 5):
         m = s.drive("sat", binary=s.vinproc, args=["-n", str(n)])
         # what-level (verdict): the outcome of WriteTo against the length of the piece
-        s.validate(m, "WriterSatTrace", cfg="WriterSatTraceWhat.cfg", known=known, shard=max(10, len_records(m) // 4 + 1), constants={"N": n})
+        # (C08 speaks only of what is output on success: there the outcome demand is a drift note, not a verdict)
+        s.validate(m, "WriterSatTrace", cfg="WriterSatTraceWhat.cfg", known=known, shard=max(10, len_records(m) // 4 + 1), constants={"N": n}, drift=not verdict)
         # step-level conformance with the mechanism model (drift)
         s.validate(m, "WriterSatTrace", known=known, shard=max(10, len_records(m) // 4 + 1), constants={"N": n}, drift=True)
         if n == 3:
